@@ -198,6 +198,17 @@ def check(case):
               lambda o: o.auc()):
         require(_same(q(fs2), q(ref2)), "fraud:setter-queries",
                 f"{ctx}: a query after assignment through the setters differs from a fresh object")
+    # the aliases are assignment targets like pos / neg: construction validates the range, assignment
+    # does not (scores rescaled to percent afterwards, say)
+    far = np.asarray([-0.5, 150.0])
+    fs3, ref3 = FraudScores(genuines=g, frauds=f, score_class=sc_arg), Scores(g, f, score_class=ref.score_class.value, equal_class="pos")
+    try:
+        fs3.genuines = far
+        fs3.frauds = far[::-1].copy()
+    except ValueError as e:
+        require(False, "fraud:setter", f"{ctx}: assignment through the alias raised {e!r} (pos / neg accept it)")
+    ref3.pos, ref3.neg = far, far[::-1].copy()
+    require(fs3.pos is far and _same(fs3.cm(tq).matrix, ref3.cm(tq).matrix), "fraud:setter", f"{ctx}: after assigning {far.tolist()}")
     edge = any(float(x) in (0.0, 1.0) for x in case["g"] + case["f"])
     return dict(nontrivial=bool(n and m_ and edge), labels=["accepted", f"dtype:{case['dtype']}"])
 
@@ -222,6 +233,8 @@ def check_seeded_bootstrap(case):
     g = rs.randint(0, 1001, size=case["n"]) / 1000.0
     f = rs.randint(0, 1001, size=case["m"]) / 1000.0
     cfg = BootstrapConfig(nb_samples=4, bootstrap_method="quantile", sampling_method="replacement")
+    # ... and with smoothing, whose noise moves scores next to 0 and 1 out of [0,1] in both objects alike
+    cfg_s = BootstrapConfig(nb_samples=4, bootstrap_method="quantile", sampling_method="replacement", smoothing=True)
     out = []
     for kind in ("fraud", "plain"):
         np.random.seed(case["seed"])
@@ -229,9 +242,13 @@ def check_seeded_bootstrap(case):
             o = FraudScores(genuines=g, frauds=f, score_class=case["sc"])
         else:
             o = Scores(g, f, score_class={"genuine": "pos", "fraud": "neg"}[case["sc"]], equal_class="pos")
-        out.append((np.asarray(o.bootstrap_ci("fnr", alpha=0.1, config=cfg, threshold=np.asarray([0.3, 0.6]))),
-                    np.asarray(o.bootstrap_metric("eer", config=cfg))))
-    require(_same(out[0][0], out[1][0]) and _same(out[0][1], out[1][1]), "fraud:seeded-bootstrap",
+        res = [np.asarray(o.bootstrap_ci("fnr", alpha=0.1, config=cfg, threshold=np.asarray([0.3, 0.6]))),
+               np.asarray(o.bootstrap_metric("eer", config=cfg))]
+        if case["n"] <= 1000:
+            smp = o.bootstrap_sample(cfg_s)
+            res += [smp.pos, smp.neg, np.asarray(o.bootstrap_metric("fpr", config=cfg_s, threshold=np.asarray([0.0, 0.01, 0.99, 1.0])))]
+        out.append(res)
+    require(len(out[0]) == len(out[1]) and all(_same(a, b) for a, b in zip(out[0], out[1])), "fraud:seeded-bootstrap",
             f"n={case['n']} m={case['m']} score_class={case['sc']}: seeded bootstrap results differ from Scores")
     return dict(nontrivial=True, labels=[f"n>={min(case['n'], case['m'])}"])
 
